@@ -1,4 +1,4 @@
-use crate::decode::error::DecodeError::{ECHLengthMismatch, SVCBClass};
+use crate::decode::error::DecodeError::{ECHLengthMismatch, SVCBClass, SVCBDuplicateKey};
 use crate::decode::Decoder;
 use crate::rr::{Class, ServiceBinding, ServiceParameter};
 use crate::DecodeResult;
@@ -37,7 +37,9 @@ impl<'a, 'b: 'a> Decoder<'b, 'b> {
                     parameter_decoder.rr_service_parameter(service_parameter_key)?;
                 parameter_decoder.finished()?;
 
-                parameters.insert(service_parameter);
+                if !parameters.insert(service_parameter) {
+                    return Err(SVCBDuplicateKey(service_parameter_key));
+                }
             }
         }
         Ok(ServiceBinding {
